@@ -59,6 +59,10 @@ def entry_state(eng, fn, c):
     st.env = env
     if fn.node.args.vararg or fn.node.args.kwarg:
         raise E.Unsupported("*args/**kwargs in function under contract")
+    for d in list(a.defaults) + [d for d in a.kw_defaults if d is not None]:
+        if isinstance(d, (ast.List, ast.Dict, ast.Set, ast.ListComp, ast.DictComp, ast.SetComp)) or \
+                (isinstance(d, ast.Call) and isinstance(d.func, ast.Name) and d.func.id in ("list", "dict", "set", "defaultdict")):
+            raise E.Unsupported("mutable default argument (one object shared between calls)", d)
     return st
 
 
